@@ -229,10 +229,11 @@ PROPS = {
         "level": "model_checking",
         "engine": "explore (bounded-exhaustive product) under virtual time",
         "technique": "bounded-exhaustive enumeration of all ping-outcome patterns x thresholds x intervals x session kinds on real sessions against a scripted raw-wire peer, in virtual time (synctest), compared with a reference failure detector",
-        "claim": "every pattern over {answered, error, timeout, method-not-found, connection break, the ping's own write stalls until the ping deadline on a ctx-honouring transport} of length <= threshold+2, thresholds 0..3, intervals 2s/7s, client and server sessions: the session is closed iff max(threshold,1) consecutive pings failed, not before that miss completed and no later than that many intervals plus one ping timeout after the peer last answered, after exactly that many pings; never otherwise (still usable at the horizon); pings stop after method-not-found; no goroutine left after Close",
+        "claim": "every pattern over {answered, error, timeout, method-not-found, connection break, the ping's own write stalls until the ping deadline on a ctx-honouring transport} of length <= threshold+2, thresholds 0..3, intervals 2s/7s, client and server sessions: the session is closed iff max(threshold,1) consecutive pings failed, not before that miss completed and no later than that many intervals plus one ping timeout after the peer last answered, after exactly that many pings; never otherwise (still usable at the horizon); pings stop after method-not-found; no goroutine left after Close; the same for a client session over the streamable HTTP client transport against a scripted HTTP server, every pattern of per-ping HTTP fates {JSON answer, SSE answer, SSE answer on a resumed stream, SSE stream ending or breaking before any event, 503, JSON-RPC error, POST never answered, silent SSE stream, method-not-found} of length <= threshold+1 (thorough threshold+2), thresholds 1..3 (thorough 0..3), MaxRetries default and disabled",
         "note": "patterns longer than threshold+2 and thresholds above 3 are outside the bound; the goroutine-leak oracle counts goroutines of the (sequential) worker process",
         "parts": [
-            {"pkg": "mcp", "mode": "plain", "test": "TestVerifC13", "shards": 8},
+            {"pkg": "mcp", "mode": "plain", "test": "TestVerifC13", "scenario_prefix": "ping-outcome", "shards": 8},
+            {"pkg": "mcp", "mode": "plain", "test": "TestVerifC13HTTP", "scenario_prefix": "http-ping", "shards": 8},
         ],
         "assumptions": ["all timers used by keep-alive go through package time (virtualised by the bubble)"],
     },
